@@ -40,6 +40,12 @@ def queries(tier):
                                             defs={'LGC': lgc, 'LGN': lgn, 'RF': rf, 'NUM': num, 'MASK': m, 'OP': op}, tu_defs={'VERIF_STUB_HASH': None},
                                             unwind=(2 << lgn) + 2, unwindset={'^(verif_hash128|hm_key_u64|harness|verif_mem(set|cpy)_.*|verif_new_.*)$': 42},
                                             timeout=(240 if tier == 'quick' else 1500), tiers=(tr,), native_vectors=300, mem_gb=(20 if compact else None), c_defs={'VERIF_NEW_CAPN': 40, 'VERIF_VEC_CAP': (2 << lgn)}))
+    # reset() from a table that KEEPS its size (starting size == current size: lg_k >= 4 with X1, lg_cur = lg_k + 1 >= 5) and any theta
+    for (lgc, lgn, rf, m) in [(5, 4, 0, 0x0), (5, 4, 0, 0x5), (6, 5, 0, 0x3)]:
+        num = bin(m).count('1')
+        qs.append(Q(f'reset_keepsize_lgc{lgc}_lgn{lgn}_rf{rf}_m{m:02x}', 'theta', 'c01_step.c', defs={'LGC': lgc, 'LGN': lgn, 'RF': rf, 'NUM': num, 'MASK': m, 'OP': 2, 'ANYTHETA': None}, tu_defs={'VERIF_STUB_HASH': None},
+                    unwind=70, unwindset={'^(verif_hash128|hm_key_u64|harness|verif_mem(set|cpy)_.*|verif_new_.*)$': 80}, timeout=(240 if tier == 'quick' else 1500), native_vectors=300,
+                    c_defs={'VERIF_NEW_CAPN': 70, 'VERIF_CUT_THETA_RESIZE': None, 'VERIF_CUT_THETA_REBUILD': None}))
     for t in range(11):
         for rf, pb in (((0, '0x3f800000u'), (3, '0x3f000000u')) if t in (0, 8) else ((3, '0x3f800000u'),)):
             qs.append(Q(f'canon_type{t}_rf{rf}_p{pb[2:5]}', 'theta', 'c01_canon.c', defs={'TYPE': t, 'RF': rf, 'PBITS': pb}, tu_defs={'VERIF_STUB_HASH': None},
